@@ -19,7 +19,7 @@
 //!                                      RewriteRows) or of width 2 on a K = 3 table (partial schema: Update / RewriteColumns)
 //! [H] compact   t=<nat> m=<0|1>        compact_files, target_rows_per_fragment = t, materialize_deletions = m (threshold 0)
 //!     restore   <ver>                  checkout_version(ver) + Dataset::restore
-//!     assign    n=<nat> <phys>:<-|e|ids>;…   scratch table with n rows (next_row_id = n): commit Operation::Append of
+//!     assign    n=<nat> <phys>:<-|e|ids>;…   (phys >= 1) scratch table with n rows (next_row_id = n): commit Operation::Append of
 //!                                      hand-built fragments (physical_rows, row_id_meta: none / empty / the ids)
 //! H   ::= @<ver>                       the call goes through a handle that has read version <ver> (a STALE handle when
 //!                                      <ver> is not the latest version) with conflict_retries(0); only append / delete /
@@ -277,6 +277,10 @@ fn parse_raw(s: &str) -> Option<RawFrag> {
         return None;
     }
     let phys = parse_nat(p)? as usize;
+    if phys == 0 {
+        // a fragment without rows never reaches the manifest
+        return None;
+    }
     let ids = match ids {
         "-" => None,
         "e" => Some(vec![]),
@@ -525,7 +529,7 @@ impl C18 {
             let mut next_existing = rng.below(40);
             let frags: Vec<RawFrag> = (0..nf)
                 .map(|_| {
-                    let phys = rng.usize(7);
+                    let phys = 1 + rng.usize(6);
                     let ids = match rng.below(10) {
                         0..=2 => None,
                         3 => Some(vec![]),
@@ -831,7 +835,7 @@ impl Prop for C18 {
             let have = prev.is_some();
             let latest = prev.as_ref().map(|p| p.version).unwrap_or(0);
             let k = prev.as_ref().map(|p| p.k).unwrap_or(2);
-            let mut reject = |res: &mut CaseResult, kind: &str| {
+            let reject = |res: &mut CaseResult, kind: &str| {
                 res.outputs.push(format!("err {kind}"));
                 res.tags.push(format!("err:{kind}"));
             };
